@@ -50,4 +50,11 @@ CHECKS = {
         note="Finite alphabet enumerated completely (about 3k cases); field contents outside the alphabets are not covered. Event timestamps produced by the reader (create time / barrier time) are checked in the C04 pipeline harness.",
         parts=[part("requests", "core", "writer", "TestVerifC20Requests", shards=(4, 8), budget=(150, 900))],
     ),
+    "C07": dict(
+        level="model_checking", engine="seq",
+        technique="total enumeration of pack shapes x configurations through the real HandleReplicateMessage; bytes decoded with Milvus' own decoder and compared with the pack",
+        text="Every pack of up to 3 (4 thorough) messages over the six message kinds, for every replicate-id / name-mapping / downstream-answer configuration, is sent through the real ChannelWriter and replicate message manager; the serialized messages captured at the fake DataHandler are decoded exactly as the Milvus proxy does (MsgHeader -> type -> ProtoUnmarshalDispatcher) and compared field by field with a pristine copy of the pack, together with the call envelope, the returned checkpoints and the error.",
+        note="Field values come from builders (2 rows, int64 pks, one partition name); concurrent calls on different channels are explored by the sched part. The fake answers with a synthetic target position.",
+        parts=[part("bytes", "core", "writer", "TestVerifC07Bytes", shards=(8, 16), budget=(150, 900))],
+    ),
 }
